@@ -7,6 +7,7 @@ CONSTANTS
   Acts = {}
   MaxCalls = 0
   MaxWrites = 0
+  Spares = {}
 INVARIANTS TypeOK
 PROPERTIES TCanonical TEofOK
 CONSTRAINT HW
